@@ -405,6 +405,14 @@ func newNot(indexRule *databasev1.IndexRule, inner index.Filter) *not {
 	}
 }
 
+// ShouldSkip never prunes: the per-block summaries (bloom filter, min/max) can
+// only show that a value is absent from a block, which says nothing about the
+// rows that satisfy a negated condition. Without this method the call resolves
+// to the nil embedded index.Filter and crashes the scan goroutine.
+func (n *not) ShouldSkip(_ index.FilterOp) (bool, error) {
+	return false, nil
+}
+
 func (n *not) Execute(searcher index.GetSearcher, seriesID common.SeriesID, tr *index.RangeOpts) (posting.List, posting.List, error) {
 	s, err := searcher(n.Key.Type)
 	if err != nil {
